@@ -12,6 +12,18 @@ ABS = {"embedlabel", "abs32", "absjmp", "absmem", "embeddelta"}
 
 def run(ctx, focus):
     q = ctx.quick
+    if focus == "C03":
+        # design level: the fixup bookkeeping model (chains, holder list, counter) on a tiny format
+        m = os.path.join(SPEC, "CodeRefImpl.tla")
+        cfg = ctx.path("impl.cfg")
+        open(cfg, "w").write(open(os.path.join(SPEC, "CodeRefImplMC.cfg")).read().replace("MaxOps = 7", "MaxOps = %d" % (7 if q else 9)))
+        r = vlib.run_tlc(ctx, m, cfg, workers=16, timeout=3000, heap="12g", tag="design")
+        vlib.tlc_must_ok(ctx, r, "design (fixup bookkeeping)")
+        ctx.log(f"design: {r.distinct} states; ChainShape / PatchedExact / ZeroIffNone / NeverTruncated hold")
+        r = vlib.run_tlc(ctx, m, os.path.join(SPEC, "CodeRefImplNeg.cfg"), workers=8, timeout=900, tag="neg")
+        if r.kind != "violation":
+            raise vlib.Broken("negative control (fixup chained with a bound label) did not violate ChainShape")
+        ctx.extra["design_states"] = ctx.states
     bdir = ctx.build("asan", "coderef")
     nprog, maxa = (1500, 40) if q else (20000, 60)
     shards = 6 if q else 12
